@@ -150,3 +150,46 @@ M("C08", SB, """    def map_variable(self, expr):
             return result
         else:
             return expr""", "falsy replacement (0) ignored")
+
+DP = "pymbolic/mapper/dependency.py"
+M("C09", DP, """    def map_lookup(self, expr, *args, **kwargs):
+        if self.include_lookups:""", """    def map_lookup(self, expr, *args, **kwargs):
+        if self.include_subscripts:""", "lookup handler tests the subscript flag")
+M("C09", DP, """            return self.combine(
+                    [self.rec(child, *args, **kwargs) for child in expr.parameters]
+                    + [self.rec(val, *args, **kwargs) for name, val in
+                    expr.kw_parameters.items()]
+                    )""", """            return self.combine(
+                    [self.rec(child, *args, **kwargs) for child in expr.parameters]
+                    )""", "kw-argument values skipped under descend_args")
+M("C09", DP, """        if composite_leaves is False:
+            include_subscripts = False
+            include_lookups = False
+            include_calls = False""", """        if composite_leaves is False:
+            include_subscripts = False
+            include_calls = False""", "composite_leaves=False forgets lookups")
+M("C09", DP, """        if self.include_calls == "descend_args":
+            return self.combine(
+                    [self.rec(child, *args, **kwargs) for child in expr.parameters])""",
+  """        if self.include_calls == "descend_args":
+            return self.combine(
+                    [self.rec(expr.function, *args, **kwargs)]
+                    + [self.rec(child, *args, **kwargs) for child in expr.parameters])""",
+  "function position reported under descend_args")
+FC = "pymbolic/mapper/flop_counter.py"
+M("C09", FC, "return len(expr.children) - 1 + sum(self.rec(ch) for ch in expr.children)",
+  "return len(expr.children) + sum(self.rec(ch) for ch in expr.children)", "n flops per n-ary sum")
+M("C09", FC, """    def map_quotient(self, expr, *args):
+        return 1 + self.rec(expr.numerator) + self.rec(expr.denominator)""",
+  """    def map_quotient(self, expr, *args):
+        return self.rec(expr.numerator) + self.rec(expr.denominator)""", "quotient counted as 0 flops")
+M("C09", FC, """    def __init__(self):
+        super().__init__()
+        self.cse_seen_set = set()""", """    cse_seen_set = set()
+
+    def __init__(self):
+        super().__init__()""", "CSE seen-set shared between counter instances")
+M("C09", "pymbolic/mapper/analysis.py", """    def post_visit(self, expr) -> None:
+        self.count += 1""", """    def visit(self, expr) -> bool:
+        self.count += 1
+        return not isinstance(expr, tuple)""", "node counter does not descend into tuples")
